@@ -15,6 +15,9 @@ import Mathlib.Data.List.Nodup
 namespace XlVerif.Props.C03
 open XlVerif XlVerif.Model.C03 XlVerif.Lemmas.C03
 
+/-- text literal -/
+def t0 (s : String) : Text := s.toList
+
 /-! ## col_roundtrip — `col2num` / `num2col` are bijective base 26, for every column, unbounded -/
 
 theorem colValue_foldl (s : Text) (a : Nat) :
@@ -452,6 +455,93 @@ end
 theorem sheetOf_key (S rest : Text) (h : ∀ ch ∈ rest, ch ≠ '!') : sheetOf (S ++ '!' :: rest) = S := by
   unfold sheetOf
   rw [rsplitLast_append '!' S rest h]
+
+/-! ## terms — every reference of a formula is recorded, references on different sheets stay apart -/
+
+/-- the term `XLFormula.__post_init__` records for a range operand is its full address on the formula's sheet -/
+theorem termsLoop_spec (S : Text) : ∀ (refs acc : List Text), (∀ x ∈ acc, fullAddress x S = x) →
+    (∀ x ∈ acc, x ∈ termsLoop S refs acc) ∧ (∀ tv ∈ refs, fullAddress tv S ∈ termsLoop S refs acc)
+  | [], acc, _ => ⟨fun x hx => by simpa [termsLoop] using hx, fun tv h => by cases h⟩
+  | tv :: rest, acc, hfix => by
+    unfold termsLoop
+    by_cases hc : acc.contains tv = true
+    · simp only [hc, if_true]
+      obtain ⟨h1, h2⟩ := termsLoop_spec S rest acc hfix
+      refine ⟨h1, ?_⟩
+      intro x hx
+      rcases List.mem_cons.mp hx with rfl | hx
+      · have hmem : x ∈ acc := by simpa using hc
+        rw [hfix x hmem]; exact h1 x hmem
+      · exact h2 x hx
+    · simp only [hc, Bool.false_eq_true, if_false]
+      have hfix' : ∀ x ∈ acc ++ [fullAddress tv S], fullAddress x S = x := by
+        intro x hx
+        rcases List.mem_append.mp hx with hx | hx
+        · exact hfix x hx
+        · have : x = fullAddress tv S := by simpa using hx
+          rw [this, fullAddress_idem]
+      obtain ⟨h1, h2⟩ := termsLoop_spec S rest (acc ++ [fullAddress tv S]) hfix'
+      refine ⟨fun x hx => h1 x (List.mem_append.mpr (Or.inl hx)), ?_⟩
+      intro x hx
+      rcases List.mem_cons.mp hx with rfl | hx
+      · exact h1 _ (List.mem_append.mpr (Or.inr (by simp)))
+      · exact h2 x hx
+
+/-- **terms_complete**: every range operand of a formula — whatever else the formula mentions — has its
+    full address among the formula's terms (nothing is lost to the duplicate test). -/
+theorem terms_complete (S : Text) (e : Expr) : ∀ tv ∈ e.refs, fullAddress tv S ∈ formulaTerms S e :=
+  (termsLoop_spec S e.refs [] (by intro x hx; cases hx)).2
+
+/-- **terms_distinct_sheets**: two references with the SAME coordinates (any `$` spellings) on two DIFFERENT
+    sheets in one formula give two different terms, and both are recorded. -/
+theorem terms_distinct_sheets (S S1 S2 coords1 coords2 : Text) (e : Expr) (hS : S1 ≠ S2)
+    (h1 : ∀ ch ∈ coords1, ch ≠ '!') (h2 : ∀ ch ∈ coords2, ch ≠ '!')
+    (hsame : removeChar '$' coords1 = removeChar '$' coords2)
+    (hr1 : S1 ++ '!' :: coords1 ∈ e.refs) (hr2 : S2 ++ '!' :: coords2 ∈ e.refs) :
+    S1 ++ '!' :: removeChar '$' coords1 ∈ formulaTerms S e ∧
+    S2 ++ '!' :: removeChar '$' coords1 ∈ formulaTerms S e ∧
+    S1 ++ '!' :: removeChar '$' coords1 ≠ S2 ++ '!' :: removeChar '$' coords1 := by
+  refine ⟨?_, ?_, ?_⟩
+  · have := terms_complete S e _ hr1
+    rwa [fullAddress_qualified S1 coords1 S h1] at this
+  · have := terms_complete S e _ hr2
+    rwa [fullAddress_qualified S2 coords2 S h2, ← hsame] at this
+  · intro heq
+    have hnb := removeChar_ne_mem '$' coords1 '!' h1
+    have e1 := rsplitLast_append '!' S1 _ hnb
+    have e2 := rsplitLast_append '!' S2 _ hnb
+    rw [heq, e2] at e1
+    injection e1 with e1
+    injection e1 with e1 _
+    exact hS e1.symm
+
+/-- **build_ranges registers every range term of every formula**: after `build_ranges`, each term `S!…:…` of
+    each formula cell is a key of `ranges` holding the matrix `resolve_ranges` gives for it. -/
+theorem build_ranges_registers_terms (dflt : Text) (wb wb' : Wb) (hok : RangesOK wb)
+    (hb : buildRanges dflt wb = .val wb') (key : Text) (cell : Cell) (fm : Formula)
+    (hcell : (key, cell) ∈ wb.cells) (hfm : cell.formula = some fm) :
+    ∀ t ∈ fm.terms, has ':' t = true → has '!' t = true →
+      ∃ sh m, resolveRanges t = .val (sh, m) ∧ dget wb'.ranges t = some m := by
+  unfold buildRanges at hb
+  intro t ht
+  apply (buildRangesTerms_registers dflt _ wb wb' hok hb).2 t
+  simp only [List.mem_flatten, List.mem_filterMap]
+  exact ⟨fm.terms, ⟨(key, cell), hcell, by simp [hfm]⟩, ht⟩
+
+/-- hence every range operand of every formula — also a rectangle whose coordinates another operand of the
+    same formula uses on another sheet — is registered under its full address. -/
+theorem every_range_reference_registered (dflt : Text) (wb wb' : Wb) (hok : RangesOK wb)
+    (hb : buildRanges dflt wb = .val wb') (key : Text) (cell : Cell) (fm : Formula)
+    (hcell : (key, cell) ∈ wb.cells) (hfm : cell.formula = some fm)
+    (hterms : fm.terms = formulaTerms fm.sheetName fm.tokens)
+    (tv : Text) (htv : tv ∈ fm.tokens.refs) (hcolon : has ':' (fullAddress tv fm.sheetName) = true) :
+    ∃ sh m, resolveRanges (fullAddress tv fm.sheetName) = .val (sh, m) ∧
+      dget wb'.ranges (fullAddress tv fm.sheetName) = some m :=
+  build_ranges_registers_terms dflt wb wb' hok hb key cell fm hcell hfm _
+    (by rw [hterms]; exact terms_complete _ _ tv htv) hcolon (qualified_has_sheet _ _)
+
+example : formulaTerms (t0 "Sheet1") (.bin 1 (.un 0 (.ref (t0 "Jan!$A$1:$B$2"))) (.un 0 (.ref (t0 "Feb 2024!$A$1:$B$2"))))
+    = [t0 "Jan!A1:B2", t0 "Feb 2024!A1:B2"] := by decide
 
 /-! ## range_values_once — a range hands every member's current value over, exactly once
 
@@ -959,6 +1049,25 @@ example : evalIn [(t "US$!A1", num 3), (t "A!B!A1", num 40), (t "A!B!A2", num 50
       (t "A!B!C1", .formula (plus (.ref (t "$A$1")) (.un 0 (.ref (t "nm"))))),
       (t "Sheet1!P1", .formula (plus (.ref (t "'US$'!$A$1")) (.ref (t "'A!B'!C1"))))]
       [(t "nm", t "'A!B'!$A$1:$A$2")] "Sheet1!P1" = .val (.s (.num (.flt 583))) := by decide +kernel
+
+/-- the same rectangle on two sheets in ONE formula: both ranges are registered and read -/
+example : evalIn [(t "Jan!A1", num 1), (t "Jan!B1", num 2), (t "Jan!A2", num 3), (t "Jan!B2", num 4),
+      (t "Feb 2024!A1", num 10), (t "Feb 2024!B1", num 20), (t "Feb 2024!A2", num 30), (t "Feb 2024!B2", num 40),
+      (t "Sheet1!P1", .formula (.bin 1 (sumOf "Jan!$A$1:$B$2") (sumOf "'Feb 2024'!$A$1:$B$2")))] [] "Sheet1!P1"
+    = .val (.s (.num (.flt (-90)))) := by decide +kernel
+
+/-- a range consumer shows the CURRENT values after `set_cell_value` on an input two formulas below its
+    members: 48 before, 408 after `Input!A1 := 100` -/
+example : (match compile (t "Input") [(t "Input!A1", num 10), (t "Input!B1", .formula (plus (.ref (t "A1")) (.ref (t "A1")))),
+      (t "Calc Sheet!C1", .formula (plus (.ref (t "Input!B1")) (.num 1))),
+      (t "Calc Sheet!C2", .formula (plus (.ref (t "Input!B1")) (.num 2))), (t "Calc Sheet!C3", num 5),
+      (t "Calc Sheet!E1", .formula (sumOf "C1:C3"))] [] with
+    | .val wb =>
+      (evaluate cUn cBin Gen.maxEmpty wb 9 (t "Calc Sheet!E1"),
+       match setCellValue wb (t "Input!A1") (.num (.int 100)) with
+       | .val wb2 => evaluate cUn cBin Gen.maxEmpty wb2 9 (t "Calc Sheet!E1")
+       | _ => .diverge)
+    | _ => (.diverge, .diverge)) = (.val (.s (.num (.flt 48))), .val (.s (.num (.flt 408)))) := by decide +kernel
 
 def twoSheets : Wb :=
   match compile (t "Sheet1") [(t "Sheet2!A1", .formula (.ref (t "B1"))), (t "A1", .formula (.ref (t "B1"))),
